@@ -39,7 +39,8 @@ def row_vals(td, i):
 class RingStep(Case):
     """One add() from an arbitrary valid ring state (covers histories of every length by induction)."""
     functions = (ReplayBuffer.add, ReplayBuffer.__len__)
-    assumptions = ("pre-state satisfies the ring invariant: cursor = count mod N, size = min(N, count), count >= 1 (storage initialised)",)
+    assumptions = ("pre-state satisfies the ring invariant: cursor = count mod N, size = min(N, count), count >= 1 (storage initialised), "
+                   "lifetime counter = count + rows added before the last clear() (>= 0)",)
     outside = ("tensordict's own tensorisation of dict/tuple observations",)
     site = "ReplayBuffer.add"
 
@@ -60,7 +61,11 @@ class RingStep(Case):
         buf.initialized = True
         buf._cursor = c % N
         buf._size = ite(c >= N, N, c)
-        buf.counter = c
+        # `counter` is a lifetime count that clear() does not reset: any value >= count is reachable
+        # (add k rows, clear(), add count rows)
+        before_clear = v.int("added_before_last_clear")
+        v.assume(before_clear >= 0)
+        buf.counter = c + before_clear
         new = mk_rows(v, "new", n)
         new_vals = [row_vals(new, k) for k in range(n)]
         buf.add(new)
@@ -75,7 +80,7 @@ class RingStep(Case):
         obs.append(Ob("cursor", eq(buf._cursor, (c + n) % N)))
         newsize = ite(c + n >= N, N, c + n)
         obs.append(Ob("len", eq(len_of(buf), newsize)))
-        obs.append(Ob("counter", eq(buf.counter, c + n)))
+        obs.append(Ob("counter", eq(buf.counter, c + before_clear + n)))
         if N > 1:
             obs.append(Ob("twin/cursor-off-by-one", eq(buf._cursor, (c + n + 1) % N), expect="sat"))
         return obs
@@ -117,6 +122,18 @@ class RingBase(Case):
             obs.append(Ob(f"transition{j}-at-row{i}", conj(*[eq(a, b) for a, b in zip(row_vals(st, i), allrows[j])])))
         buf.clear()
         obs.append(Ob("clear/empty", len(buf) == 0 and buf._cursor == 0 and buf._storage is None))
+        # life goes on after clear(): the next add starts a fresh ring
+        n3 = self.n1
+        td = TensorDict({"obs": v.tensor("c_obs", (n3, 2)), "action": v.tensor("c_action", (n3,)),
+                         "reward": v.tensor("c_reward", (n3,)), "next_obs": v.tensor("c_next_obs", (n3, 2)),
+                         "done": v.tensor("c_done", (n3,))}, batch_size=[n3])
+        rows = [[*elems(td["obs"][k]), val(td["action"], k), val(td["reward"], k), *elems(td["next_obs"][k]), val(td["done"], k)] for k in range(n3)]
+        buf.add(td)
+        obs.append(Ob("after-clear/len", len(buf) == min(N, n3), site="ReplayBuffer.add/after-clear"))
+        st = buf.storage
+        for k in range(n3):
+            obs.append(Ob(f"after-clear/transition{k}-at-row{k}", conj(*[eq(a, b) for a, b in zip(row_vals(st, k), rows[k])]),
+                          site="ReplayBuffer.add/after-clear"))
         return obs
 
 
